@@ -27,6 +27,7 @@ pub fn fv(tag: &str) -> Option<FactValue> {
         "nan" => FactValue::Float(f64::NAN),
         "tiny" => FactValue::Float(1e-20),
         "i0" => FactValue::Integer(0),
+        "sx" => FactValue::String("C:\\t \"q\"\n".into()),
         _ => return None,
     })
 }
@@ -48,6 +49,7 @@ fn bfact(i: i64) -> TypedFacts {
         1 | 2 => t.set("k", FactValue::Integer(1)),
         3 => t.set("k", FactValue::String("1".into())),
         5 => t.set("k", FactValue::Float(1.0)),
+        6 => t.set("k", FactValue::String("C:\\t \"q\"\n".into())),
         _ => {}
     }
     t
@@ -91,11 +93,15 @@ fn factset(i: i64) -> TypedFacts {
 }
 
 fn crule(r: i64) -> Rule {
-    let field = ["A.x", "A.x", "A.y", "AB.x", "A.x"][(r - 1) as usize];
+    let field = ["A.x", "A.x", "A.y", "AB.x", "A.x", "A.y"][(r - 1) as usize];
     let c = ConditionGroup::single(Condition::new("B.z".to_string(), Operator::Equal, RV::Integer(1)));
     let mut rule = Rule::new(format!("r{}", r), c, vec![ActionType::Set { field: field.to_string(), value: RV::Integer(1) }]);
     if r == 5 {
         rule.enabled = false;
+    }
+    if r == 6 {
+        // enabled, with a date window that has not begun
+        rule = rule.with_date_effective(chrono::DateTime::parse_from_rfc3339("2099-01-01T00:00:00Z").unwrap().with_timezone(&chrono::Utc));
     }
     rule
 }
@@ -138,13 +144,13 @@ impl IX {
     }
     fn obs_beta(&self) -> Value {
         let mut l = Map::new();
-        for v in ["i1", "s1", "f1"] {
+        for v in ["i1", "s1", "f1", "sx"] {
             let key = format!("{:?}", fv(v).unwrap());
             let ids: Vec<i64> = self.beta.lookup(&key).iter().map(|&i| i as i64).collect();
             let mut s = ids.clone();
             s.sort();
             s.dedup();
-            l.insert(v.to_string(), if s.len() == ids.len() { Self::setfn(&ids, 5) } else { json!({"duplicates": ids}) });
+            l.insert(v.to_string(), if s.len() == ids.len() { Self::setfn(&ids, 6) } else { json!({"duplicates": ids}) });
         }
         json!({"lookup": l})
     }
@@ -220,10 +226,10 @@ impl Model for IXWrap {
                 let mut required = Map::new();
                 for g in ["A.x", "A.y", "AB.x"] {
                     let cands = ix.concl.find_candidates(&format!("{} == 1", g));
-                    let req: Vec<i64> = self.added.iter().cloned().filter(|&r| r != 5 && ["A.x", "A.x", "A.y", "AB.x", "A.x"][(r - 1) as usize] == g).collect();
+                    let req: Vec<i64> = self.added.iter().cloned().filter(|&r| r != 5 && ["A.x", "A.x", "A.y", "AB.x", "A.x", "A.y"][(r - 1) as usize] == g).collect();
                     let miss: Vec<i64> = req.iter().cloned().filter(|r| !cands.contains(&format!("r{}", r))).collect();
-                    missing.insert(g.to_string(), IX::setfn(&miss, 5));
-                    required.insert(g.to_string(), IX::setfn(&req, 5));
+                    missing.insert(g.to_string(), IX::setfn(&miss, 6));
+                    required.insert(g.to_string(), IX::setfn(&req, 6));
                 }
                 json!({"missing": missing, "required": required})
             }
